@@ -24,6 +24,12 @@ def decode(v):
             return tuple(decode(x) for x in v["__tuple__"])
         if "__obj__" in v:
             return v
+        if "__set__" in v:
+            return set()
+        if "__map__" in v:
+            return {}
+        if "__opaque__" in v:
+            return object()
         return {k: decode(x) for k, x in v.items()}
     if isinstance(v, list):
         return [decode(x) for x in v]
@@ -39,7 +45,7 @@ def resolve(target):
     parts = qn.split(".")
     for i, p in enumerate(parts):
         if i == len(parts) - 1 and cls is not None:
-            return mod, cls, cls.__dict__.get(p, getattr(cls, p))
+            return mod, cls, (cls.__dict__[p] if p in cls.__dict__ else getattr(cls, p))
         obj = getattr(obj, p)
         if isinstance(obj, type):
             cls = obj
@@ -95,6 +101,8 @@ def main(path):
             args[k] = decode(v)
     import inspect
     f = fn.__func__ if isinstance(fn, (staticmethod, classmethod)) else fn
+    if not inspect.isfunction(f) and hasattr(f, "method"):
+        f = f.method          # automat MethodicalOutput / MethodicalInput wrap the real function
     sig = inspect.signature(f)
     call_args = {k: v for k, v in args.items() if k in sig.parameters}
     old = {"self": copy.deepcopy(selfobj) if selfobj is not None else None}
